@@ -107,12 +107,44 @@ func TestAdders(t *testing.T) {
 	}
 }
 
-type lst struct{ mu sync.Mutex; n int }
+type lst struct {
+	mu sync.Mutex
+	n  int
+}
 
-func (l *lst) OnStateChanged(cbreaker.CircuitBreaker, cbreaker.CircuitState) error { l.mu.Lock(); l.n++; l.mu.Unlock(); return nil }
-func (l *lst) OnEventCountUpdated(cbreaker.CircuitBreaker, *cbreaker.EventCount) error { l.mu.Lock(); l.n++; l.mu.Unlock(); return nil }
-func (l *lst) OnRequestRejected(cbreaker.CircuitBreaker) error { l.mu.Lock(); l.n++; l.mu.Unlock(); return nil }
-func (l *lst) Stop() {}
+// a listener as applications write them: it looks at the breaker it is told about (name) and at the count it is handed
+func (l *lst) seen(cb cbreaker.CircuitBreaker, ec *cbreaker.EventCount) error {
+	var name *cbreaker.Name
+	if ec == nil { // rejections only: state changes and their zero counts are also notified by the constructor
+		name = cb.Name()
+	}
+	var extra int64
+	if ec != nil {
+		extra = ec.Total() + ec.Success() + ec.Failure() + int64(ec.FailureRate()) + int64(ec.SuccessRate())
+	}
+	l.mu.Lock()
+	l.n++
+	if name != nil {
+		l.n += len(name.Name)
+	}
+	l.n += int(extra & 1)
+	l.mu.Unlock()
+	return nil
+}
+
+// (the constructor notifies the initial state synchronously: a listener touching the breaker only in the other callbacks makes the
+// first use of its getters happen on the concurrent path)
+func (l *lst) OnStateChanged(cb cbreaker.CircuitBreaker, _ cbreaker.CircuitState) error {
+	l.mu.Lock()
+	l.n++
+	l.mu.Unlock()
+	return nil
+}
+func (l *lst) OnEventCountUpdated(cb cbreaker.CircuitBreaker, ec *cbreaker.EventCount) error {
+	return l.seen(cb, ec)
+}
+func (l *lst) OnRequestRejected(cb cbreaker.CircuitBreaker) error { return l.seen(cb, nil) }
+func (l *lst) Stop()                                              {}
 
 func TestBreakerAndWindow(t *testing.T) {
 	cb, err := cbreaker.NewCircuitBreakerBuilder().SetFailureRateThreshold(0.5).SetMinimumRequestThreshold(2).
@@ -123,11 +155,13 @@ func TestBreakerAndWindow(t *testing.T) {
 	}
 	par(8, func(i int) {
 		for k := 0; k < rounds()*5; k++ {
-			switch (i + k) % 4 {
+			switch (i + k) % 5 {
 			case 0:
 				cb.CanRequest()
 			case 1:
 				cb.OnSuccess()
+			case 2:
+				cb.Execute(context.Background(), func(context.Context) (interface{}, error) { return cb.Name(), nil })
 			default:
 				cb.OnFailure()
 			}
